@@ -205,3 +205,10 @@ package specs
 //@ ensures result == normForm(int(f), s)
 //@ func golang.org/x/text/unicode/norm.(Form).IsNormal
 //@ assigns nothing
+
+// ---- encoding/json: decoding writes the fields of its target object and freshly allocated memory only (assumed; the
+// targets in this code base are request structs allocated by the caller).  The target is kept as a ghost call record.
+//@ ghost lastUnmarshalTarget() interface{}
+//@ func encoding/json.Unmarshal
+//@ assigns pointee(v), lastUnmarshalTarget()
+//@ records lastUnmarshalTarget() == v
